@@ -423,6 +423,17 @@ fn sample_of(cx: &mut Ctx, case: &PreCase, style: Style) {
     }
 }
 
+pub const NOISE_PROBES: &[&str] = &[
+    "noise_getvalues", "noise_unknown_type", "noise_skipped", "noise_foreign_id", "noise_dup_begin", "noise_foreign_begin",
+    "noise_unknown_role", "noise_own_misplaced", "noise_getvalues_empty", "noise_huge_record", "getvalues_incomplete_tail",
+];
+pub const C01_PROBES: &[&str] = &[
+    "exact_fill_read", "params_3plus_records", "long_form_small_len", "pair_spans_3_records", "four_byte_length",
+    "cut_inside_length_prefix", "tight_buffer", "pair_over_one_record",
+];
+pub const C04REQ_PROBES: &[&str] = &["abort_during_params", "exact_fill_read", "params_3plus_records", "cut_inside_length_prefix"];
+pub const C06_PROBES: &[&str] = &["exact_fill_read", "pair_at_bound", "pair_beyond_buffer", "tight_limit_ok", "bufsize_table"];
+#[allow(dead_code)]
 pub const D1REQ_PROBES: &[&str] = &[
     "exact_fill_read", "params_3plus_records", "long_form_small_len", "getvalues_incomplete_tail",
     "noise_getvalues", "noise_unknown_type", "noise_skipped", "noise_foreign_id", "noise_dup_begin",
@@ -439,7 +450,8 @@ fn note_reach(cx: &mut Ctx, case: &PreCase, m: &PreambleModel) {
 
 /// C01: exact preamble decoding under any segmentation and chunking.
 pub fn c01(cx: &mut Ctx) -> VResult {
-    cx.declare(&[], D1REQ_PROBES);
+    cx.declare(&[], C01_PROBES);
+    cx.declare(&[], NOISE_PROBES);
     let big = cx.ch.chance(1, 40);
     let o = PreOpts { allow_abort: false, noise_num: cx.ch.pick(4), big_ok: big, max_pairs: if big { 3 } else { 10 }, force_buf: None };
     let case = gen_precase(cx, &o);
@@ -468,7 +480,8 @@ pub fn c01(cx: &mut Ctx) -> VResult {
 
 /// C04 (request-parser side) + C11 (abort during Params): exact reply stream.
 pub fn c04_req(cx: &mut Ctx) -> VResult {
-    cx.declare(&[], D1REQ_PROBES);
+    cx.declare(&[], C04REQ_PROBES);
+    cx.declare(&[], NOISE_PROBES);
     let o = PreOpts { allow_abort: true, noise_num: 2 + cx.ch.pick(5), big_ok: false, max_pairs: 6, force_buf: None };
     let case = gen_precase(cx, &o);
     let m = model::preamble(&case.wire, 0, case.max_conns);
@@ -490,8 +503,7 @@ pub fn c04_req(cx: &mut Ctx) -> VResult {
 
 /// C06: buffer bound. Exhaustive effective-size table for small sizes, then bound-tight cases.
 pub fn c06(cx: &mut Ctx) -> VResult {
-    cx.declare(&[], D1REQ_PROBES);
-    cx.declare(&[], &["pair_at_bound", "pair_beyond_buffer", "tight_limit_ok", "tight_limit_stuck", "bufsize_table"]);
+    cx.declare(&[], C06_PROBES);
     // table part (every run checks a slice; together the batch covers 0..=1100 and the residues near powers)
     let base = cx.ch.one_of(&[0usize, 16, 64, 4088, 8184, 65528, (1 << 20) - 8]);
     for s in base..base + 20 {
@@ -558,7 +570,7 @@ pub fn c06(cx: &mut Ctx) -> VResult {
         }
         Ok(Err(PErr::StuckOnInput)) => {
             vcheck!(d.done, "c06_stuck_not_reported", "StuckOnInput without done");
-            cx.probe(if delta == 6 { "pair_beyond_buffer" } else { "tight_limit_stuck" });
+            if delta == 6 { cx.probe("pair_beyond_buffer"); } else { cx.fault("stuck_between_documented_and_tight_limit"); }
         }
         Ok(Err(e)) => vfail!("c06_outcome", "", "unexpected error {} for oversized pair", err_name(&e)),
         Err(p) => vfail!("panic", "into_request", "{p}"),
